@@ -11,6 +11,7 @@ import (
 	"sort"
 	"strconv"
 	"strings"
+	"sync"
 	"time"
 
 	"verif/engine/spec"
@@ -225,10 +226,21 @@ func verify(args []string) int {
 			claimed[n] = true
 		}
 	}
-	for i, o := range outs {
-		if o.Status == "unknown" && claimed[o.Obl.Name] {
-			outs[i] = vc.Solve(o.Obl, workDir, i, timeout*4)
+	{
+		var wg sync.WaitGroup
+		sem := make(chan struct{}, 5)
+		for i, o := range outs {
+			if o.Status == "unknown" && claimed[o.Obl.Name] {
+				wg.Add(1)
+				sem <- struct{}{}
+				go func(i int, ob *vc.Obligation) {
+					defer wg.Done()
+					defer func() { <-sem }()
+					outs[i] = vc.Solve(ob, workDir, 100000+i, timeout*4)
+				}(i, o.Obl)
+			}
 		}
+		wg.Wait()
 	}
 	solveS := 0.0
 	for _, o := range outs {
